@@ -25,9 +25,9 @@ def ds_of_item(item):
     if sd is not None:
         v = item[()]
         if isinstance(v, (bytes, str)):
-            s = v.decode("utf-8") if isinstance(v, bytes) else v
+            s = v.decode("utf-8", "backslashreplace") if isinstance(v, bytes) else v
             return {"kind": "str", "vlen": sd.length is None, "enc": sd.encoding, "shape": list(item.shape), "v": s}
-        vals = [x.decode("utf-8") if isinstance(x, bytes) else x for x in np.asarray(v).ravel().tolist()]
+        vals = [x.decode("utf-8", "backslashreplace") if isinstance(x, bytes) else x for x in np.asarray(v).ravel().tolist()]
         return {"kind": "str", "vlen": sd.length is None, "enc": sd.encoding, "shape": list(item.shape), "v": vals}
     v = item[()]
     a = np.asarray(v, dtype=item.dtype)      # numpy scalars are native-endian; report the file's order
